@@ -388,4 +388,7 @@ def case_repr(case):
          'trace': [list(p) for p in case['trace']], 'cfg': case['cfg']}
     if case.get('warmup'):
         r['matched_before_on_the_same_matcher'] = [list(p) for p in case['warmup']]
+    for k in case:
+        if k not in ('graph', 'trace', 'cfg', 'warmup', 'timed') and isinstance(case[k], (str, int, float, bool)):
+            r[k] = case[k]
     return r
